@@ -294,25 +294,36 @@ def inj_flatten_flattened(rnd):
 
 def inj_nway_after_occ(rnd):
     s, info = host_product(rnd)
-    r = rnd.choice(s.decl["A"])
+    r = rnd.choice(s.decl["A"] if rnd.random() < 0.7 else info["ranks"])
+    holders = [t for t in "ABC" if t in s.decl and r in s.decl[t]]
+    if not holders:
+        return None
     n = rnd.choice([2, 3, 3, 4])
-    # host: legal stack (shape* then occupancy*)
+    # host: a legal stack; shape splits may also FOLLOW an occupancy split
     k = rnd.randint(0, n - 1)
-    legal = ["uniform_shape(%d)" % (8 - i) for i in range(k)] + \
-        ["uniform_occupancy(A.%d)" % (5 - i) for i in range(n - k)]
+    legal = ["uniform_shape(%d)" % (8 - i) for i in range(k)]
+    for i in range(n - k):
+        if i > 0 and rnd.random() < 0.4:
+            legal.append("uniform_shape(%d)" % rnd.randint(2, 4))
+        else:
+            legal.append("uniform_occupancy(%s.%d)" % (rnd.choice(holders), 6 - i))
     host = _with_part(s, "Z", {r: legal})
     stack = list(legal)
-    dyn = [i for i, d in enumerate(stack) if d.startswith("uniform_occupancy")]
-    first = dyn[0]
-    if first == len(stack) - 1:
+    first = [i for i, d in enumerate(stack) if d.startswith("uniform_occupancy")][0]
+    how = rnd.choice(["append", "replace", "insert"])
+    if how == "append" or first == len(stack) - 1:
         stack.append("nway_shape(2)")
         p = len(stack) - 1
-    else:
+    elif how == "replace":
         p = rnd.randint(first + 1, len(stack) - 1)
         stack[p] = "nway_shape(2)"
+    else:
+        p = rnd.randint(first + 1, len(stack))
+        stack.insert(p, "nway_shape(2)")
+    between = [d.split("(")[0] for d in stack[first + 1:p]]
     bad = _with_part(s, "Z", {r: stack})
-    return "nway-after-occupancy", "nway@%d/%d(first-dyn@%d)" % (p, len(stack), first), \
-        host, bad, "plain"
+    return "nway-after-occupancy", "nway@%d/%d(first-dyn@%d;between=%s)" % (
+        p, len(stack), first, "+".join(between) or "-"), host, bad, "plain"
 
 
 def inj_shape_after_flatten(rnd):
